@@ -754,6 +754,15 @@ coap_ws_read(coap_session_t *session, uint8_t *data, size_t datalen) {
     }
   }
 
+  if (session->ws->data_size > datalen) {
+    /*
+     * The frame being received does not fit into this caller's buffer
+     * (a frame refused above, or coap_ws_close() waiting for the Close
+     * with its small buffer while a data frame is still coming in).
+     */
+    return -1;
+  }
+
   /*
    * The caller's buffer does not survive between calls - bring back the
    * start of the frame's data that was read in by a previous call.
